@@ -83,6 +83,12 @@ NextS == UNCHANGED dummy /\
   \/ /\ tv.op = "seedr"
      /\ \/ \E k \in Ks, u \in Us : tv' = [op |-> "dyadic", k |-> k, u |-> u, U |-> Hat(u), U2 |-> M3Mul(Hat(u), Hat(u)), nu |-> NormSq(u)]
         \/ tv' = [op |-> "zero"]
+        (* SE(2): theta = atan2(+-2m, m^2-1) = +-2 atan(1/m): both signs, both neighbours of the
+           theta = 1e-3 switch of the plain (non-squared) series, ladder up to 0.93 rad *)
+        \/ \E m \in {2, 3, 5, 8, 16, 125, 1999, 2000, 2001, 10000}, sg \in {1, -1}, rho \in {<<3,-1>>} :
+              LET cs == <<m * m - 1, sg * 2 * m, m * m + 1>> IN
+              \/ tv' = [op |-> "exp_se2", cs |-> cs, rho |-> rho, vr |-> SE2V(cs, rho), exp |-> RM(CMat(cs), cs[3])]
+              \/ tv' = [op |-> "log_se2", cs |-> cs, p |-> rho, ur |-> SE2U(cs, rho)]
         \/ \E kind \in {"so3", "se3", "se23", "se2"} :
               tv' = [op |-> "lin0", kind |-> kind,
                      gens |-> [i \in 1..Dim(kind, 0) |-> Wedge(kind, Unit(Dim(kind, 0), i))]]
